@@ -152,32 +152,42 @@ theorem storesWrite_getD (w k : Nat) (stores : List (Nat × Nat)) (val : Nat →
 
 /-- a loop whose iteration `k` rewrites (part of) row `k` only -/
 theorem rowLoop_getD (F : Nat → Mat α C → Mat α C) (v : Nat → Nat → α) (P : Nat → Bool) (e : α)
+    (n : Nat)
     (hrows : ∀ k d, (F k d).rows = d.rows)
-    (hget : ∀ k d r c, (F k d).getD r c e =
+    (hget : ∀ k, k < n → ∀ d r c, (F k d).getD r c e =
       if r = k ∧ k < d.rows ∧ P c = true then v k c else d.getD r c e)
-    (n : Nat) (d : Mat α C) (r c : Nat) :
+    (d : Mat α C) (r c : Nat) :
     ((List.range n).foldl (fun d k => F k d) d).rows = d.rows ∧
     ((List.range n).foldl (fun d k => F k d) d).getD r c e =
       if r < n ∧ r < d.rows ∧ P c = true then v r c else d.getD r c e := by
-  induction n with
-  | zero =>
-    refine ⟨rfl, ?_⟩
-    simp only [List.range_zero, List.foldl_nil]
-    rw [if_neg]; omega
-  | succ n ih =>
-    rw [foldl_range_succ]
-    refine ⟨by rw [hrows, ih.1], ?_⟩
-    rw [hget, ih.1, ih.2]
-    by_cases h1 : r = n ∧ n < d.rows ∧ P c = true
-    · rw [if_pos h1, if_pos ⟨by omega, by omega, h1.2.2⟩, h1.1]
-    · rw [if_neg h1]
-      by_cases h2 : r < n ∧ r < d.rows ∧ P c = true
-      · rw [if_pos h2, if_pos ⟨by omega, h2.2.1, h2.2.2⟩]
-      · rw [if_neg h2, if_neg]
-        intro h3
-        by_cases hrn : r = n
-        · exact h1 ⟨hrn, by omega, h3.2.2⟩
-        · exact h2 ⟨by omega, h3.2.1, h3.2.2⟩
+  have aux : ∀ m, m ≤ n →
+      ((List.range m).foldl (fun d k => F k d) d).rows = d.rows ∧
+      ((List.range m).foldl (fun d k => F k d) d).getD r c e =
+        if r < m ∧ r < d.rows ∧ P c = true then v r c else d.getD r c e := by
+    intro m
+    induction m with
+    | zero =>
+      intro _
+      refine ⟨rfl, ?_⟩
+      simp only [List.range_zero, List.foldl_nil]
+      rw [if_neg]; omega
+    | succ m ih =>
+      intro hm
+      have ih := ih (by omega)
+      rw [foldl_range_succ]
+      refine ⟨by rw [hrows, ih.1], ?_⟩
+      rw [hget m (by omega), ih.1, ih.2]
+      by_cases h1 : r = m ∧ m < d.rows ∧ P c = true
+      · rw [if_pos h1, if_pos ⟨by omega, by omega, h1.2.2⟩, h1.1]
+      · rw [if_neg h1]
+        by_cases h2 : r < m ∧ r < d.rows ∧ P c = true
+        · rw [if_pos h2, if_pos ⟨by omega, h2.2.1, h2.2.2⟩]
+        · rw [if_neg h2, if_neg]
+          intro h3
+          by_cases hrn : r = m
+          · exact h1 ⟨hrn, by omega, h3.2.2⟩
+          · exact h2 ⟨by omega, h3.2.1, h3.2.2⟩
+  exact aux n (Nat.le_refl n)
 
 /-- extensionality through `getD` (no `Inhabited` instance needed) -/
 theorem mat_ext (e : α) {x y : Mat α C} (hr : x.rows = y.rows)
@@ -236,7 +246,7 @@ theorem genericRows_spec (zero : α) (add : α → α → α) (pssm : Mat α K) 
     (F := fun k d => segWrite k 0 C (fun col => cellSum zero add pssm fun j => seq.getD (a + k + j) col 0) d)
     (v := fun r c => cellSum zero add pssm fun j => seq.getD (a + r + j) c 0)
   · intro k d; exact segWrite_rows ..
-  · intro k d r c
+  · intro k _ d r c
     rw [segWrite_getD]
     simp only [Nat.zero_le, Nat.zero_add, true_and, Nat.sub_zero, decide_eq_true_eq]
     by_cases h : r = k ∧ c < C ∧ k < d.rows ∧ c < C
